@@ -89,6 +89,12 @@ Definition hscen_file_shoot (name : bytes) (reg : list (sdecl * hstep)) (items :
 Definition hscen_file_ev (name : bytes) (reg : list (sdecl * hstep)) (items : list sitem) : option (list sev) :=
   option_map (hscen_ev_decl name) (scen_steps reg [] items).
 
+(* the gRPC scenario provider (providers/scenario/grpc/decode.go) reads `calls:` the same way *)
+Definition gscen_file_shoot (name : bytes) (reg : list (sdecl * gstep)) (items : list sitem) : option (list sample) :=
+  option_map (gscen_shoot_decl name) (scen_steps reg [] items).
+Definition gscen_file_ev (name : bytes) (reg : list (sdecl * gstep)) (items : list sitem) : option (list sev) :=
+  option_map (gscen_ev_decl name) (scen_steps reg [] items).
+
 (* specification side: the steps the list means = every named request, as many times as written,
    sleeps are no steps; the declaration meant by a name = the last one carrying it *)
 Definition last_decl {O : Type} (reg : list (sdecl * O)) (name : bytes) : option (sdecl * O) :=
@@ -107,6 +113,9 @@ Definition file_steps {O : Type} (reg : list (sdecl * O)) (items : list sitem) :
   flat_map (item_steps reg) items.
 Definition hscen_file_spec (name : bytes) (reg : list (sdecl * hstep)) (items : list sitem) : list sample :=
   hscen_decl_spec name (file_steps reg items).
+
+Definition gscen_file_spec (name : bytes) (reg : list (sdecl * gstep)) (items : list sitem) : list sample :=
+  gscen_decl_spec name (file_steps reg items).
 
 (* ---------- 2. a run: instances -> phout queue -> lines ---------- *)
 
